@@ -37,6 +37,7 @@ const (
 type Cfg struct {
 	On     uint32 `json:"on"`
 	Off    uint32 `json:"off"` // bool options passed explicitly with false
+	Pre    uint32 `json:"pre,omitempty"` // bool options (a subset of Off) passed with true first: the later false must win
 	Indent string `json:"indent"`
 	Prefix string `json:"prefix"`
 }
@@ -51,6 +52,8 @@ func (c Cfg) String() string {
 			parts = append(parts, fmt.Sprintf("WithIndentPrefix(%q)", c.Prefix))
 		case c.On&(1<<i) != 0:
 			parts = append(parts, n+"(true)")
+		case c.Off&(1<<i) != 0 && c.Pre&(1<<i) != 0:
+			parts = append(parts, n+"(true),"+n+"(false)")
 		case c.Off&(1<<i) != 0:
 			parts = append(parts, n+"(false)")
 		}
@@ -69,6 +72,11 @@ var ctors = []func(bool) jsontext.Options{
 // Real returns the option list in bit order.
 func (c Cfg) Real() []jsontext.Options {
 	var out []jsontext.Options
+	for i := 0; i < 11; i++ {
+		if c.Pre&c.Off&(1<<i) != 0 {
+			out = append(out, ctors[i](true))
+		}
+	}
 	for i := 0; i < 11; i++ {
 		if c.On&(1<<i) != 0 {
 			out = append(out, ctors[i](true))
